@@ -9,7 +9,7 @@ Z64 = b'\0' * 8
 
 
 # ---------------------------------------------------------------- generator
-def gen_case(rng, flavor=None, size=None):
+def _gen_case(rng, flavor=None, size=None):
     flavor = flavor or rng.choice(['fs', 'fs', 'wrap'])
     size = size or rng.choice([6, 10, 16, 24])
     ops = []
@@ -85,6 +85,13 @@ def gen_case(rng, flavor=None, size=None):
     return dict(level='st', flavor=flavor, keep_old=rng.random() < 0.4, copy=rng.random() < 0.25, ops=ops)
 
 
+def gen_case(rng, flavor=None, size=None):
+    from c13_db import add_construction
+    c = _gen_case(rng, flavor, size)
+    add_construction(c, rng)
+    return c
+
+
 def gen_data(rng):
     """blob payload as a compact string: hex, or 'R<len>:<seed>' for a long pseudo-random one"""
     r = rng.random()
@@ -152,7 +159,8 @@ def run_case(case, root, ck=None):
     dupkeys = set()
     others = [0]
     with clock.scripted():
-        env = Env(os.path.join(root, 'db'), flavor, keep_old=case.get('keep_old', False), pack_gc=True)
+        env = Env(os.path.join(root, 'db'), flavor, keep_old=case.get('keep_old', False), pack_gc=True,
+                  layout=case.get('layout'), via_config=bool(case.get('cfg')), oid_base=case.get('oid_base', 0))
         S = env.storage
         L = Ledger()
         blob_pickle = ObjectWriter().serialize(Blob())   # what Connection stores (is_blob_record)
